@@ -540,11 +540,12 @@ class TypeTransformer:
             except (TypeError, ValueError, re.error):
                 continue
 
-        if '+' in str(data):
+        if '+' in str(data) or '-' in str(data):
+            # a UTC offset can be negative as well ("2020-01-02T03:04:05-05:00")
             for f in formats:
                 try:
                     # val = t.strptime(data, f + ' %z')
-                    val = t.strptime(data, f + (' %z' if ' +' in str(data) else '%z'))
+                    val = t.strptime(data, f + (' %z' if ' +' in str(data) or ' -' in str(data) else '%z'))
                     if is_utc:
                         val = val.replace(tzinfo=timezone.utc)
                     return val
